@@ -191,6 +191,12 @@ class Gen:
         pt, rt = self.funcs[f]
         args = []
         for t in pt:
+            if t == "fn1":
+                cands = [n for n, (p2, r2) in self.funcs.items() if p2 == ["int"] and r2 == "int" and n != f]
+                if not cands:
+                    return self.int_lit()
+                args.append(self.pick(cands))
+                continue
             if t == "int" and self.chance(0.15):
                 pf = [n for n, (p2, r2) in self.funcs.items() if r2 == "int" and not p2 and n != f]
                 if pf:
@@ -360,7 +366,7 @@ class Gen:
 
     def function(self, sc):
         self.fn_count += 1
-        kind = self.r.randrange(7)
+        kind = self.r.randrange(8)
         name = f"f{self.fn_count}"
         deco = ""
         if self.chance(self.o["decorators"]):
@@ -421,6 +427,16 @@ class Gen:
             out.append("    return other * 100 + count" if self.chance(0.5) else "    return other * 100 + inc()")
             out.append("}")
             self.funcs[name] = ([], "int")
+        elif kind == 7:         # higher-order: a function without globals of its own calling its argument
+            self.features.add("higher-order")
+            shape = self.r.randrange(3)
+            if shape == 0:
+                out.append(f"fn {name}(cb, x) {{ return cb(x) }}")
+            elif shape == 1:
+                out.append(f"fn {name}(cb, x) {{ let a = cb(x); let b = cb(x + 1); return a + b }}")
+            else:
+                out.append(f"fn {name}(cb, x) {{ if x > 2 {{ return cb(x - 1) }} return cb(x) + 1 }}")
+            self.funcs[name] = (["fn1", "int"], "int")
         elif kind == 3:         # single-expression function over parameters (inliner bait)
             np_ = self.r.randrange(1, 4)
             ps = self.r.sample(["a", "b", "c", "x", "n"], np_)
